@@ -627,11 +627,17 @@ static void run_c02(long cases) {
 
 int main(int argc, char** argv) {
     g_opts = parse_opts(argc, argv);
+#if LV_INTERPOSE
+    lv::ip().pollDelayMaxMs = (int)g_opts.num("poll-delay", 0);   // see live.h: loop threads come back to their pollers late
+#endif
     install_handlers();
     std::string prop = g_opts.get("prop", "c15");
     if (prop == "c15") run_c15(g_opts.cases); else if (prop == "c04c") run_c04c(g_opts.cases); else run_c02(g_opts.cases);
     g_distinct.flush();
     Json s; s.str("t", "sum").num("evaluations", g_evals);
+#if LV_INTERPOSE
+    if (lv::ip().pollDelays.load()) g_counts["poll_delays_injected"] = lv::ip().pollDelays.load();
+#endif
     Json c; for (auto& kv : g_counts) c.num(kv.first, kv.second);
     s.raw("counts", c.done());
     emit(s.done());
